@@ -27,6 +27,39 @@ STRUCT_FIELDS = {
 }
 
 
+DOC_BUILTINS = {"String", "&str", "str", "i8", "i16", "i32", "i64", "i128", "isize", "u8", "u16", "u32", "u64", "u128", "usize", "f32", "f64", "bool", "()",
+                "char", "HashMap", "BTreeMap", "HashSet", "BTreeSet", "Vec", "Option", "Result", "Box", "Rc", "Arc"}
+
+
+def check_builtin_table(S, rule):
+    """the names the harvester never looks up (TypeResolver's built-in type set) are the documented primitives and containers only: any other name in
+    that table hides a project type of the same name from discovery; shared by C07-D1 and C02-D4"""
+    fn = S.fn("TypeResolver", "new")
+    if fn is None:
+        rule.bad(V(rule.id, "<anchor>", "missing:TypeResolver::new", "anchor not found"))
+        return
+    names = set()
+    for e in walk_block(fn.body):
+        if e.get("k") == "mcall" and e["method"] == "insert" and expr_text(e["recv"]) == "type_set" and e["args"]:
+            for x in walk(e["args"][0]):
+                if x.get("k") == "lit" and x["lit"]["t"] == "str":
+                    names.add(x["lit"]["v"])
+            if not any(x.get("k") == "lit" for x in walk(e["args"][0])):
+                # inserted from a loop variable: collect the literals of the iterated array
+                names.add("<computed:%s>" % expr_text(e["args"][0])[:30])
+        if e.get("k") == "for":
+            for x in walk(e["iter"]):
+                if x.get("k") == "lit" and x["lit"]["t"] == "str":
+                    names.add(x["lit"]["v"])
+    extra = sorted(n for n in names if n not in DOC_BUILTINS and not n.startswith("<computed"))
+    if not names:
+        rule.bad(V(rule.id, "TypeResolver::new", "builtin-table-empty", "no built-in type names found: re-anchor"))
+    elif extra:
+        rule.bad(V(rule.id, "TypeResolver::new", "undocumented-builtin:%s" % ",".join(extra), "the built-in type table also lists %s: a project struct or enum with such a name is never looked up, so it is referenced but not declared" % extra))
+    else:
+        rule.ok("built-in type table = documented primitives and containers (%d names)" % len([n for n in names if not n.startswith("<computed")]))
+
+
 def check_emitter_reads_used_set(P, rule):
     """who may read TypeCollector.known_structs (the full discovered set): nobody on the emission side.  Declarations are looked up in the map
     that was filtered (unused and mapped names removed); shared by C07-D6 and C18-D6"""
@@ -260,6 +293,7 @@ def check(ctx):
                 if short_path(c.path) in SHRINK and "String" in " ".join(c.generics[:1] + [c.self_ty or ""]):
                     r1.bad(V(r1.id, fid, "worklist-shrunk:%s" % short_path(c.path), "names are removed from a name set by %s in the function that harvests type names, before resolution has seen every file" % short_path(c.path), c.file, c.line))
         r1.ok("%s: the harvested work list is only extended" % short_path(fid))
+    check_builtin_table(S, r1)
     for k, what in SEED_FIELDS.items():
         if k in seen:
             r1.ok("extract_type_names(%s) in %s" % (k, seen[k]))
